@@ -6,6 +6,7 @@ CONSTANTS
   Kinds = {"PING", "WU0", "DATAC", "SETTINGS"}
   MaxSteps = @STEPS@
   Histories = {0, 2}
+  GoAways = {FALSE, TRUE}
 INIT Init
 NEXT Next
 INVARIANTS Bounded ClosedOver MayOnly Delivered
